@@ -1543,18 +1543,29 @@ func resolveVarIn(computed map[string]pr.RawTokens, token Token, inProgress []st
 		return nil
 	}
 
-	fn := token.(pa.FunctionBlock)
-	if utils.AsciiLower(fn.Name) != "var" {
+	// var() may be nested at any depth in the arguments of a function or in a block
+	resolveArguments := func(args []Token) []Token {
 		arguments := []Token{}
-		for _, argument := range fn.Arguments {
-			// var() may be nested at any depth in the arguments
+		for _, argument := range args {
 			if resolved := resolveVarIn(computed, argument, inProgress); resolved != nil {
 				arguments = append(arguments, resolved...)
 			} else {
 				arguments = append(arguments, argument)
 			}
 		}
-		return []Token{pa.NewFunctionBlock(token.Pos(), fn.Name, arguments)}
+		return arguments
+	}
+	switch block := token.(type) {
+	case pa.ParenthesesBlock:
+		block.Arguments = resolveArguments(block.Arguments)
+		return []Token{block}
+	case pa.SquareBracketsBlock:
+		block.Arguments = resolveArguments(block.Arguments)
+		return []Token{block}
+	case pa.FunctionBlock:
+		if utils.AsciiLower(block.Name) != "var" {
+			return []Token{pa.NewFunctionBlock(token.Pos(), block.Name, resolveArguments(block.Arguments))}
+		}
 	}
 
 	// first arg is name, what follows the first comma is the default value
